@@ -23,7 +23,7 @@ func VH_C19_AutoPlay() {
 	pr.idleCount = verifrt.IntRange("idleCount", 0, 3)
 	pr.suspendThreshold = verifrt.IntRange("suspendThreshold", 1, 3)
 	pr.lastGameStateTime = verifrt.Int64("lastSeen")
-	pr.curGameID = "g1"
+	pr.curGameID = vhPick("curGame", []string{"g1", "g0"}) // the last hand the runner saw: this one or an earlier one
 	suspended := pr.status == PlayerStatus_Suspend
 
 	gs := t.State.GameState
